@@ -387,6 +387,292 @@ func (r *vfFilterRig) c14Episode(ep vfC14Episode, work string, n int) bool {
 	return true
 }
 
+// ---------------------------------------------------------------- scripted ends
+//
+// The in-process client cannot announce the Windows line ending in front of a non-Windows server (the Windows flag is
+// process-wide), and no Windows server exists here. In this family both ends are scripts around one real relay: the
+// capability sets the quantifier lists but the real ends cannot produce (client newline "!\n", server id ending in 10,
+// every protocol number, binary/dir/fork in any combination) x seeded server configurations x every way of ending.
+
+type vfC14Script struct {
+	WinServer bool                   `json:"win_server"`
+	WinClient bool                   `json:"win_client"`
+	Act       map[string]interface{} `json:"act"`
+	Cfg       map[string]interface{} `json:"cfg"`
+	End       string                 `json:"end"` // client-exit, client-fail, server-fail, server-exit, ctrl-c, cancel (confirm=false)
+	Split     int                    `json:"split"`
+}
+
+// vfRawLine returns the first line starting with marker in b together with its terminator ("!\n" or "\n").
+func vfRawLine(b []byte, marker string) (body string, term string, ok bool) {
+	i := bytes.Index(b, []byte(marker))
+	if i < 0 {
+		return "", "", false
+	}
+	j := bytes.IndexByte(b[i:], '\n')
+	if j < 0 {
+		return "", "", false
+	}
+	line := string(b[i : i+j])
+	if strings.HasSuffix(line, "!") {
+		return strings.TrimSuffix(line, "!"), "!\n", true
+	}
+	return line, "\n", true
+}
+
+func (r *vfRelayRig) c14Scripted(sc vfC14Script, rnd *vfRand) bool {
+	c := r.c
+	c0, s0 := r.toServer.Len(), r.toClient.Len()
+	if st := r.relay.relayStatus.Load(); st != kRelayStandBy {
+		c.Viol("c14-relay-not-standby:before", "scripted %+v: relay status %d before the episode", sc, st)
+		return false
+	}
+	r.idn++
+	suffix := "00"
+	if sc.WinServer {
+		suffix = "10"
+	}
+	id := fmt.Sprintf("%011d%s", (time.Now().UnixMilli()%1e7)*10000+r.idn%10000, suffix)
+	r.serverOut.WriteAtomic([]byte(fmt.Sprintf("\x1b7\x07::TRZSZ:TRANSFER:%s:1.1.6:%s:0\r\n", rnd.PickStr("S", "R", "D"), id)))
+	if !vfWaitSink(r.toClient, s0, []byte("::TRZSZ:TRANSFER:"), 20*time.Second) {
+		c.Slow("c14s-trigger-not-forwarded", "scripted: the trigger did not reach the client side within 20 s")
+		return false
+	}
+	// the client's ACT, framed the way that client frames it on a direct connection
+	actJSON, _ := json.Marshal(sc.Act)
+	clientNL := "\n"
+	if sc.WinServer {
+		clientNL = "!\n"
+	}
+	vfWriteSplit(r.clientIn, []byte("#ACT:"+encodeString(string(actJSON))+clientNL), sc.Split, rnd)
+	if !vfWaitSink(r.toServer, c0, []byte("\n"), 20*time.Second) {
+		c.Slow("c14s-act-not-forwarded", "scripted %+v: no line reached the server side within 20 s", sc)
+		return false
+	}
+	actOut, actTerm, ok := vfRawLine(r.toServer.Bytes()[c0:], "#ACT:")
+	if !ok {
+		c.Viol("c14-act-not-forwarded", "scripted %+v: the server end received %q instead of an ACT line", sc, vfHead(r.toServer.Bytes()[c0:], 80))
+		return false
+	}
+	var in, out transferAction
+	in = transferAction{Newline: "\n", SupportBinary: true} // what a server assumes for fields the client omits
+	json.Unmarshal(actJSON, &in)
+	dout, e := vfDecodeLine(actOut)
+	if e != nil || json.Unmarshal(dout, &out) != nil {
+		c.Viol("c14-act-undecodable", "scripted %+v: ACT at the server end %q cannot be decoded", sc, vfHeadS(actOut, 80))
+		return false
+	}
+	want := in
+	want.SupportBinary = false
+	if want.Protocol > kProtocolVersion {
+		want.Protocol = kProtocolVersion
+	}
+	if out.SupportBinary {
+		c.Viol("c14-binary-not-narrowed", "scripted %+v: ACT reached the server with binary=true without a tunnel", sc)
+		return false
+	}
+	if out.Protocol > kProtocolVersion {
+		c.Viol("c14-protocol-raised", "scripted %+v: ACT reached the server with protocol %d", sc, out.Protocol)
+		return false
+	}
+	if !reflect.DeepEqual(out, want) {
+		c.Viol("c14-act-altered", "scripted %+v: ACT at the server end %+v differs from the narrowed client ACT %+v", sc, out, want)
+		return false
+	}
+	wantActTerm := "\n"
+	if sc.WinServer {
+		wantActTerm = "!\n"
+	}
+	if actTerm != wantActTerm {
+		c.Viol("c14-act-framing", "scripted %+v: ACT reached the server terminated by %q, that server reads lines ending in %q", sc, actTerm, wantActTerm)
+		return false
+	}
+	c.Obs("act_lines_compared", 1)
+	c.Obs("scripted_act_lines", 1)
+	if sc.End == "cancel" {
+		return r.c14ScriptedEnd(sc, rnd, "\n", "\n")
+	}
+	// the server's CFG, framed with the newline the (narrowed) ACT announced
+	cfgJSON, _ := json.Marshal(sc.Cfg)
+	serverNL := out.Newline
+	if sc.WinServer {
+		serverNL = "!\n"
+	}
+	s1 := r.toClient.Len()
+	vfWriteSplit(r.serverOut, []byte("#CFG:"+encodeString(string(cfgJSON))+serverNL), sc.Split, rnd)
+	if !vfWaitSink(r.toClient, s1, []byte("\n"), 20*time.Second) {
+		c.Viol("c14-cfg-not-forwarded", "scripted %+v: nothing reached the client end within 20 s of the server's CFG (relay status %d)", sc, r.relay.relayStatus.Load())
+		return false
+	}
+	cfgOut, cfgTerm, ok := vfRawLine(r.toClient.Bytes()[s1:], "#CFG:")
+	if !ok {
+		c.Viol("c14-cfg-not-forwarded", "scripted %+v: the client end received %q instead of a CFG line", sc, vfHead(r.toClient.Bytes()[s1:], 80))
+		return false
+	}
+	// what the client ends up with: the CFG decoded over the configuration it holds at that moment. On a direct
+	// connection that is {newline "\n", or "!\n" facing a Windows server} overlaid with the server's JSON.
+	clientNewline := "\n"
+	if sc.WinServer {
+		clientNewline = "!\n"
+	}
+	direct := transferConfig{Timeout: 20, Newline: clientNewline, MaxBufSize: 10 * 1024 * 1024}
+	json.Unmarshal(cfgJSON, &direct)
+	relayed := transferConfig{Timeout: 20, Newline: clientNewline, MaxBufSize: 10 * 1024 * 1024}
+	dcfg, e := vfDecodeLine(cfgOut)
+	if e != nil || json.Unmarshal(dcfg, &relayed) != nil {
+		c.Viol("c14-cfg-undecodable", "scripted %+v: CFG at the client end %q cannot be decoded", sc, vfHeadS(cfgOut, 80))
+		return false
+	}
+	if relayed.Binary {
+		c.Viol("c14-binary-negotiated", "scripted %+v: CFG reached the client with binary=true through a relay without a tunnel", sc)
+		return false
+	}
+	if relayed.TmuxOutputJunk && !direct.TmuxOutputJunk {
+		direct.TmuxOutputJunk = true
+	}
+	if direct.TmuxPaneColumns <= 0 && relayed.TmuxPaneColumns > 0 {
+		direct.TmuxPaneColumns = relayed.TmuxPaneColumns
+	}
+	direct.EscapeTable, relayed.EscapeTable = nil, nil
+	if !reflect.DeepEqual(relayed, direct) {
+		c.Viol("c14-cfg-altered", "scripted %+v: the client's configuration after the relayed CFG %+v differs from the one a direct connection gives %+v beyond the relay's own tmux constraints", sc, relayed, direct)
+		return false
+	}
+	wantCfgTerm := "\n"
+	if sc.WinServer || sc.WinClient {
+		wantCfgTerm = "!\n" // what a direct connection delivers: the server frames with the newline of the ACT
+	}
+	if cfgTerm != wantCfgTerm {
+		c.Viol("c14-cfg-framing", "scripted %+v: CFG reached the client terminated by %q, a direct connection delivers %q", sc, cfgTerm, wantCfgTerm)
+		return false
+	}
+	c.Obs("cfg_lines_compared", 1)
+	c.Obs("scripted_cfg_lines", 1)
+	return r.c14ScriptedEnd(sc, rnd, relayed.Newline, serverNL)
+}
+
+// c14ScriptedEnd ends the scripted episode, waits for standby and probes transparency.
+func (r *vfRelayRig) c14ScriptedEnd(sc vfC14Script, rnd *vfRand, clientNL, serverNL string) bool {
+	c := r.c
+	if sc.End != "cancel" {
+		if st := r.relay.relayStatus.Load(); st != kRelayTransferring {
+			deadline := time.Now().Add(5 * time.Second)
+			for r.relay.relayStatus.Load() != kRelayTransferring && time.Now().Before(deadline) {
+				time.Sleep(time.Millisecond)
+			}
+		}
+		// some traffic of a transfer in both directions
+		r.clientIn.WriteAtomic([]byte("#NUM:1" + clientNL))
+		r.serverOut.WriteAtomic([]byte("#SUCC:1" + serverNL))
+	}
+	switch sc.End {
+	case "client-exit":
+		r.clientIn.WriteAtomic([]byte("#EXIT:" + encodeString("Saved f.bin") + clientNL))
+	case "client-fail":
+		r.clientIn.WriteAtomic([]byte("#" + rnd.PickStr("FAIL", "fail") + ":" + encodeString("Stopped") + clientNL))
+	case "server-fail":
+		r.serverOut.WriteAtomic([]byte("#" + rnd.PickStr("FAIL", "fail") + ":" + encodeString("open failed") + serverNL))
+	case "server-exit":
+		r.serverOut.WriteAtomic([]byte("#EXIT:" + encodeString("bye") + serverNL))
+	case "ctrl-c":
+		r.clientIn.WriteAtomic([]byte{0x03})
+	}
+	deadline := time.Now().Add(5 * time.Second)
+	for r.relay.relayStatus.Load() != kRelayStandBy && time.Now().Before(deadline) {
+		time.Sleep(time.Millisecond)
+	}
+	if stt := r.relay.relayStatus.Load(); stt != kRelayStandBy {
+		c.Viol("c14-relay-not-standby:"+sc.End, "scripted %+v: the relay is in state %d (0 standby, 1 handshaking, 2 transferring) 5 s after the transfer ended", sc, stt)
+		return false
+	}
+	// transparency afterwards, byte-exact in both directions
+	time.Sleep(2 * time.Millisecond)
+	c1, s1 := r.toServer.Len(), r.toClient.Len()
+	pc := append([]byte(fmt.Sprintf("typed after %s\r", sc.End)), rnd.Bytes(1+rnd.Intn(60))...)
+	ps := append([]byte(fmt.Sprintf("output after %s \x1b[0m\r\n", sc.End)), rnd.Bytes(1+rnd.Intn(300))...)
+	pc = bytes.ReplaceAll(pc, []byte{0x03}, []byte{0x04})
+	pc, ps = append(pc, "<c-end>"...), append(ps, "<s-end>"...)
+	vfWriteSplit(r.clientIn, pc, rnd.Intn(3), rnd)
+	vfWriteSplit(r.serverOut, ps, rnd.Intn(3), rnd)
+	if !vfWaitSink(r.toServer, c1, []byte("<c-end>"), 10*time.Second) || !vfWaitSink(r.toClient, s1, []byte("<s-end>"), 10*time.Second) {
+		c.Viol("c14-not-transparent:"+sc.End, "scripted %+v: probe bytes did not pass the relay within 10 s after the transfer ended", sc)
+		return false
+	}
+	if got := r.toServer.Bytes()[c1:]; !bytes.Equal(got, pc) {
+		c.Viol("c14-not-transparent:"+sc.End, "scripted %+v: typed probe altered on its way to the server: %q vs %q", sc, vfHead(got, 60), vfHead(pc, 60))
+		return false
+	}
+	if got := r.toClient.Bytes()[s1:]; !bytes.Equal(got, ps) {
+		c.Viol("c14-not-transparent:"+sc.End, "scripted %+v: server output altered on its way to the client: %q vs %q", sc, vfHead(got, 60), vfHead(ps, 60))
+		return false
+	}
+	c.Obs("scripted_episodes_"+sc.End, 1)
+	return true
+}
+
+func vfC14ScriptedCases() []vfCase {
+	var cases []vfCase
+	n := vfPick(24, 300)
+	ends := []string{"client-exit", "client-fail", "server-fail", "server-exit", "ctrl-c", "cancel"}
+	for i := 0; i < n; i++ {
+		i := i
+		cases = append(cases, vfCase{ID: fmt.Sprintf("script-%d", i), Run: func(c *vfCtx) {
+			r := c.R
+			rig := vfNewRelayRig(c)
+			defer rig.Close()
+			var hist []string
+			for k := 0; k < 10; k++ {
+				sc := vfC14Script{WinServer: (i+k)%4 == 3, WinClient: (i+k)%4 == 1 || (i+k)%4 == 3, End: ends[(i+k+r.Intn(2))%len(ends)], Split: r.Intn(3)}
+				nl := "\n"
+				if sc.WinClient {
+					nl = "!\n"
+				}
+				sc.Act = map[string]interface{}{"lang": "go", "version": r.PickStr("1.1.6", "1.1.8", "1.0.0"), "confirm": sc.End != "cancel", "newline": nl,
+					"protocol": r.PickInt(1, 2, 3, 4, 5, 9), "binary": !sc.WinClient && r.Intn(3) > 0, "support_dir": r.Intn(3) > 0}
+				if r.Intn(4) == 0 {
+					sc.Act["fork"] = true
+				}
+				if r.Intn(5) == 0 {
+					delete(sc.Act, "protocol") // an old client
+				}
+				if !sc.WinClient && r.Intn(5) == 0 {
+					delete(sc.Act, "newline")
+				}
+				cfg := map[string]interface{}{"lang": r.PickStr("go", "py", "js"), "bufsize": r.PickInt(1024, 65536, 10<<20, 1<<30), "timeout": r.PickInt(0, 5, 20, 100)}
+				for _, f := range []string{"quiet", "directory", "overwrite"} {
+					if r.Intn(2) == 0 {
+						cfg[f] = true
+					}
+				}
+				if p, ok := sc.Act["protocol"]; ok {
+					cfg["protocol"] = vfMin(p.(int), kProtocolVersion)
+				}
+				if r.Intn(3) == 0 {
+					cfg["tmux_output_junk"] = true
+				}
+				if r.Intn(3) == 0 {
+					cfg["tmux_pane_width"] = r.PickInt(40, 80, 211)
+				}
+				if r.Intn(3) == 0 {
+					cfg["compress"] = r.PickInt(1, 2)
+				}
+				sc.Cfg = cfg
+				hist = append(hist, fmt.Sprintf("%s/ws%v/wc%v", sc.End, sc.WinServer, sc.WinClient))
+				if !rig.c14Scripted(sc, r) {
+					c.Replay(map[string]interface{}{"history": hist, "script": sc})
+					return
+				}
+			}
+			c.SetAdd("sequences", "scripted:"+strings.Join(hist, ">"))
+			c.Nontrivial(fmt.Sprintf("scripted %v", hist))
+			if i < 2 {
+				c.Sample(map[string]interface{}{"scripted_episodes": hist})
+			}
+		}})
+	}
+	return cases
+}
+
 func TestVF_C14(t *testing.T) {
 	writeToClipboard = func(buf []byte) {}
 	var cases []vfCase
@@ -436,5 +722,6 @@ func TestVF_C14(t *testing.T) {
 			}
 		}})
 	}
+	cases = append(cases, vfC14ScriptedCases()...)
 	vfRunCases(t, "C14", cases, 2, 600*time.Second)
 }
